@@ -49,20 +49,22 @@ def ukfp_case(g, tier):
     exo = r.random() < 0.5
     F = rnd_F(g, n, r.choice(["general", "general", "general", "triangular", "dyadic", "zero", "identity"]))
     pstyle = r.choice(U.PSD_STYLES)
-    Ps = [U.rnd_psd(g, n, pstyle) for _ in range(k)]
-    means = [g.vec(n) for _ in range(k)]
-    u = g.vec(n) if exo else [0.0] * n
+    skind, d = U.rnd_scales(g, n)
+    Ps = [U.scale_cov(U.rnd_psd(g, n, pstyle), d) for _ in range(k)]
+    means = [[v * d[i] for i, v in enumerate(g.vec(n))] for _ in range(k)]
+    u = [v * d[i] for i, v in enumerate(g.vec(n))] if exo else [0.0] * n
     outw = [r.uniform(0.01, 1.0) for _ in range(k)]
     if variant == 0:
-        Q = U.rnd_psd(g, n, r.choice(["full", "full", "dyadic", "singular", "zero"]))
+        Q = U.scale_cov(U.rnd_psd(g, n, r.choice(["full", "full", "dyadic", "singular", "zero"])), d)
         G, Qeff = None, Q
     else:
-        Q = U.rnd_psd(g, nz, r.choice(["full", "full", "dyadic", "singular", "diag"]))
+        _, dz = U.rnd_scales(g, nz)
+        Q = U.scale_cov(U.rnd_psd(g, nz, r.choice(["full", "full", "dyadic", "singular", "diag"])), dz)
         G = g.mat(n, nz) if r.random() < 0.8 else [[g.dyadic(-2, 2, 2) for _ in range(nz)] for _ in range(n)]
         Gf, Qf = U.fmat(G), U.fmat(Q)
         Qeff = round_mat(vlib.mmul(vlib.mmul(Gf, Qf), vlib.mT(Gf)))
     meta = {"op": "ukfp", "variant": variant, "n": n, "nz": nz, "k": k, "alpha": alpha, "beta": beta, "kappa": kappa, "skip": skip, "exo": exo,
-            "F": F, "G": G, "Q": Q, "Qeff": Qeff, "u": u, "means": means, "Ps": Ps, "outw": outw, "pstyle": pstyle}
+            "F": F, "G": G, "Q": Q, "Qeff": Qeff, "u": u, "means": means, "Ps": Ps, "outw": outw, "pstyle": pstyle, "scale": skind}
     return meta
 
 
@@ -105,8 +107,11 @@ def ukfc_case(g, tier):
     fail = r.choice([0] * 12 + [1, 2, 3])
     online = variant == 1 and r.random() < 0.4
     pstyle = r.choice(["full", "full", "full", "dyadic", "singular", "diag"])
-    Ps = [U.rnd_psd(g, n, pstyle) for _ in range(k)]
-    means = [g.vec(n) for _ in range(k)]
+    # one overall scale (the property bounds the conditioning of S, not its magnitude)
+    skind = r.choice(["unit"] * 6 + ["tiny", "small", "large", "huge"])
+    sc = 2.0 ** {"unit": 0, "tiny": -27, "small": -13, "large": 10, "huge": 23}[skind]
+    Ps = [U.scale_cov(U.rnd_psd(g, n, pstyle), [sc] * n) for _ in range(k)]
+    means = [[v * sc for v in g.vec(n)] for _ in range(k)]
     hstyle = r.choice(["general", "general", "general", "dyadic", "zerorow", "rank1", "zero"])
     if hstyle == "dyadic":
         H = [[g.dyadic(-2, 2, 3) for _ in range(n)] for _ in range(m)]
@@ -119,16 +124,16 @@ def ukfc_case(g, tier):
         H = g.mat(m, n)
         if hstyle == "zerorow":
             H[r.randrange(m)] = [0.0] * n
-    y = g.vec(m)
+    y = [v * sc for v in g.vec(m)]
     outw = [r.uniform(0.01, 1.0) for _ in range(k)]
     cond = 10 ** r.uniform(0, 3)
     if variant == 0:
         nz = 0
-        R = g.spd_dyadic(m) if r.random() < 0.3 else g.spd(m, cond=cond)
+        R = U.scale_cov(g.spd_dyadic(m) if r.random() < 0.3 else g.spd(m, cond=cond), [sc] * m)
         D, Reff = None, R
     else:
         nz = m + r.choice([0, 0, 1])
-        R = g.spd_dyadic(nz) if r.random() < 0.3 else g.spd(nz, cond=cond)
+        R = U.scale_cov(g.spd_dyadic(nz) if r.random() < 0.3 else g.spd(nz, cond=cond), [sc] * nz)
         # D = [d I | extra] + perturbation: full row rank, so that D R D^T is positive definite
         d = r.choice([1.0, 0.5, 2.0])
         D = [[(d if i == j else 0.0) + (g.dyadic(-1, 1, 3) * 0.25 if r.random() < 0.5 else 0.0) for j in range(nz)] for i in range(m)]
@@ -136,7 +141,7 @@ def ukfc_case(g, tier):
         Reff = round_mat(vlib.mmul(vlib.mmul(Df, Rf), vlib.mT(Df)))
     alpha, beta, kappa = U.rnd_params(g, n + nz)
     meta = {"op": "ukfc", "variant": variant, "n": n, "nz": nz, "m": m, "k": k, "alpha": alpha, "beta": beta, "kappa": kappa, "fail": fail, "online": online,
-            "H": H, "D": D, "R": R, "Reff": Reff, "y": y, "means": means, "Ps": Ps, "outw": outw, "pstyle": pstyle, "hstyle": hstyle}
+            "H": H, "D": D, "R": R, "Reff": Reff, "y": y, "means": means, "Ps": Ps, "outw": outw, "pstyle": pstyle, "hstyle": hstyle, "scale": skind}
     return meta
 
 
@@ -497,6 +502,7 @@ def run(ctx):
         hist[key] = hist.get(key, 0) + 1
         hist["components=%d" % meta["k"]] = hist.get("components=%d" % meta["k"], 0) + 1
         hist["P=" + meta["pstyle"]] = hist.get("P=" + meta["pstyle"], 0) + 1
+        hist["scale=" + meta.get("scale", "?")] = hist.get("scale=" + meta.get("scale", "?"), 0) + 1
         first.append((probs, o, Bs))
         if o is not None and Bs is not None:
             lines = ukfp_lines(meta, Bs) if meta["op"] == "ukfp" else ukfc_lines(meta, Bs)
